@@ -69,6 +69,7 @@ type ldoc struct {
 	Meta      bool
 	NoOutline bool // the built-in heading styles are written without an outline level
 	Fam       *family
+	Grid      bool // drawn by genGridDoc: the subject is the table grid
 	ntok      int
 }
 
@@ -355,6 +356,13 @@ func (d *ldoc) genTable(r *hx.Rng, depth int) *ltable {
 			}
 		}
 	}
+	d.fillCells(r, t, depth)
+	return t
+}
+
+// fillCells gives every position that no merge covers its cell (1x1 unless it
+// anchors a merge) and every cell its paragraphs, in row-major order.
+func (d *ldoc) fillCells(r *hx.Rng, t *ltable, depth int) {
 	for a := 0; a < t.R; a++ {
 		for b := 0; b < t.C; b++ {
 			pos := [2]int{a, b}
@@ -385,7 +393,185 @@ func (d *ldoc) genTable(r *hx.Rng, depth int) *ltable {
 			}
 		}
 	}
+}
+
+// ---- tables that combine horizontal and vertical merges ---------------------------------
+//
+// genMergeGrid draws a grid of 2..5 rows and 3..6 columns in two steps. First one to
+// three VERTICAL merges (2..4 rows high, one or now and then two columns wide) are
+// placed at random free positions - several per table, side by side or stacked in
+// the same column. Then every row, on its own, partitions each maximal run of still
+// free positions into cells of width 1..3. Because the rows are partitioned
+// independently, the rows a vertical merge runs through as a rule hold DIFFERENT
+// numbers of cells to its left (a column span in the start row only, in a
+// continuation row only, in both with different widths, in neither): where a cell
+// sits in its row (its index among the row's cells) says nothing about its grid
+// column. The grid column of every anchor, its spans and the covered positions are
+// recorded in the ltable exactly as for the plain tables, and both writers render it.
+
+func (t *ltable) free(r0, c0, rs, cs int) bool {
+	for a := r0; a < r0+rs; a++ {
+		for b := c0; b < c0+cs; b++ {
+			if _, used := t.Cover[[2]int{a, b}]; used {
+				return false
+			}
+			if _, used := t.Cells[[2]int{a, b}]; used {
+				return false
+			}
+		}
+	}
+	return true
+}
+
+func (t *ltable) place(r0, c0, rs, cs int) {
+	t.Cells[[2]int{r0, c0}] = &lcell{RS: rs, CS: cs}
+	for a := r0; a < r0+rs; a++ {
+		for b := c0; b < c0+cs; b++ {
+			if a != r0 || b != c0 {
+				t.Cover[[2]int{a, b}] = [2]int{r0, c0}
+			}
+		}
+	}
+}
+
+func (d *ldoc) genMergeGrid(r *hx.Rng) *ltable {
+	t := &ltable{R: r.Range(2, 5), C: r.Range(3, 6), Cells: map[[2]int]*lcell{}, Cover: map[[2]int][2]int{},
+		NoGrid: r.Chance(1, 5), ExplicitContinue: r.Chance(1, 4)}
+	for want, tries := r.Range(1, 3), 0; want > 0 && tries < 12; tries++ {
+		cs := 1
+		if r.Chance(1, 4) {
+			cs = 2
+		}
+		rs := r.Range(2, min(4, t.R))
+		r0, c0 := r.Intn(t.R-rs+1), r.Intn(t.C-cs+1)
+		if c0 == 0 && r.Bool() {
+			c0 = r.Intn(t.C - cs + 1) // fewer merges in the first column: nothing lies to their left
+		}
+		if !t.free(r0, c0, rs, cs) {
+			continue
+		}
+		t.place(r0, c0, rs, cs)
+		want--
+	}
+	for a := 0; a < t.R; a++ {
+		for b := 0; b < t.C; {
+			if !t.free(a, b, 1, 1) {
+				b++
+				continue
+			}
+			run := 1
+			for b+run < t.C && t.free(a, b+run, 1, 1) {
+				run++
+			}
+			w := 1
+			if r.Chance(2, 5) {
+				w = r.Range(2, 3)
+			}
+			if w > run {
+				w = run
+			}
+			if w > 1 {
+				t.place(a, b, 1, w)
+			}
+			b += w
+		}
+	}
+	d.fillCells(r, t, 1) // depth 1: no nested tables here, the grid is the subject
 	return t
+}
+
+// leftLayout lists the grid columns < c at which a cell (anchor or vertical
+// continuation) of row a starts, as the row is written in the package: the number
+// of entries is the index the cell at column c has in its row.
+func (t *ltable) leftLayout(a, c int) string {
+	var b strings.Builder
+	for k := 0; k < c; k++ {
+		pos := [2]int{a, k}
+		if anc, cov := t.Cover[pos]; cov && (anc[0] == a || anc[1] != k) {
+			continue // covered horizontally: no cell of its own in this row
+		}
+		fmt.Fprintf(&b, "%d,", k)
+	}
+	return b.String()
+}
+
+// mergeClasses classifies the vertical merges of the table by what lies to their left.
+func (t *ltable) mergeClasses() []string {
+	var out []string
+	nv := 0
+	for a := 0; a < t.R; a++ {
+		for c := 0; c < t.C; c++ {
+			cell := t.Cells[[2]int{a, c}]
+			if cell == nil || cell.RS < 2 {
+				continue
+			}
+			nv++
+			out = append(out, fmt.Sprintf("vmerge-%d-rows", cell.RS))
+			if cell.CS > 1 {
+				out = append(out, "vmerge-with-colspan")
+			}
+			start := t.leftLayout(a, c)
+			more, fewer, same := false, false, true
+			for k := a + 1; k < a+cell.RS; k++ {
+				l := t.leftLayout(k, c)
+				if l != start {
+					same = false
+				}
+				if strings.Count(l, ",") > strings.Count(start, ",") {
+					more = true
+				}
+				if strings.Count(l, ",") < strings.Count(start, ",") {
+					fewer = true
+				}
+			}
+			switch {
+			case c == 0:
+				out = append(out, "vmerge-in-first-column")
+			case same:
+				out = append(out, "vmerge-rows-alike-to-its-left")
+			default:
+				out = append(out, "vmerge-rows-differ-to-its-left")
+				if more {
+					out = append(out, "vmerge-fewer-cells-left-in-start-row")
+				}
+				if fewer {
+					out = append(out, "vmerge-fewer-cells-left-in-continuation-row")
+				}
+				if !more && !fewer {
+					out = append(out, "vmerge-same-count-other-widths-left")
+				}
+			}
+		}
+	}
+	if nv > 1 {
+		out = append(out, "several-vmerges-in-table")
+	}
+	return out
+}
+
+// genGridDoc draws a document whose subject is the table grid: one to three
+// merge-combining tables between paragraphs, headings and plain tables.
+func genGridDoc(r *hx.Rng, format string) *ldoc {
+	d := &ldoc{Format: format, Styles: r.Chance(4, 5), Numbering: r.Bool(), Meta: r.Bool(), NoOutline: r.Chance(1, 3), Grid: true}
+	if r.Chance(1, 3) {
+		d.ntok++
+		d.Header = append(d.Header, fmt.Sprintf("HDR%03dx", d.ntok))
+	}
+	for n := r.Range(1, 3); n > 0; n-- {
+		switch r.Intn(5) {
+		case 0:
+			d.Blocks = append(d.Blocks, lblock{P: d.genPara(r)})
+		case 1:
+			d.Blocks = append(d.Blocks, lblock{P: d.genHeading(r)})
+		case 2:
+			d.Blocks = append(d.Blocks, lblock{T: d.genTable(r, 0)})
+		}
+		d.Blocks = append(d.Blocks, lblock{T: d.genMergeGrid(r)})
+	}
+	if r.Bool() {
+		d.Blocks = append(d.Blocks, lblock{P: d.genPara(r)})
+	}
+	return d
 }
 
 func (d *ldoc) genCellRuns(r *hx.Rng) []lrun {
